@@ -184,8 +184,27 @@ def header_sf(hb, size_len, op_len):
     return src, None
 
 
-def run_frame_writers(ctx):
+def run_frame_writers(ctx, only_encrypted=False):
+    """only_encrypted: C05's view — the encrypted writers, header-form clauses only (overflow/assert events belong to C02)"""
     from ..framew import analyse_writer
+    real_ctx = ctx
+    if only_encrypted:
+        class _Filter:
+            def __init__(self, inner):
+                self.inner = inner
+                self.samples = inner.samples
+
+            def violate(self, rule, key, message, file=None, line=None, **kw):
+                kind = key.rsplit("|", 1)[-1]
+                if "encrypted" in key and kind in ("placement", "size-field", "form", "header-len", "no-header", "shape"):
+                    self.inner.violate("cipher.header-form", key, message, file, line, **kw)
+
+            def sample(self, s_):
+                pass
+
+            def rule(self, *a, **k):
+                pass
+        ctx = _Filter(real_ctx)
     st = state()
     g = st["g"]
     F = g.f("wow_world_messages")
@@ -238,6 +257,9 @@ def run_frame_writers(ctx):
                 ctx.violate("frame.affine", f"{pk}|no-assert", f"{fn['path']}, {rng}: declared size is never compared with the bytes written", fn["file"], fn["line"])
         if n <= 2:
             ctx.sample({"writer": fn["path"], "pieces": [(hex(lo), hex(hi), [e[0] for e in (s.events if s else [])]) for lo, hi, s, err in res][:8]})
+    if only_encrypted:
+        real_ctx.rule("cipher.header-form", n // 2, floor=18, note="encrypted default writers: the header handed to / built for the cipher carries size field = opcode + body in the right form and byte order for every body length")
+        return n
     ctx.rule("frame.writers", n, floor=WRITER_FLOOR, note="default write_* methods evaluated over all body lengths the header can express (piecewise-affine domain)")
     return n
 
